@@ -31,6 +31,8 @@ const FAULT_POINTS: &[&str] = &[
     "gz_copy",
     "gz_finish",
     "gz_remove_src",
+    // (the listing of the directory: fails a rotation or the start, is swallowed by the cleanup)
+    "read_dir",
 ];
 
 struct RunOut {
@@ -620,15 +622,21 @@ pub fn run_case(ctx: &mut CaseCtx) -> CaseResult {
             let init_failed = !initialised
                 && faults
                     .iter()
-                    .any(|f| f.0 == "open" || f.0 == "rename_current");
+                    .any(|f| f.0 == "open" || f.0 == "rename_current" || f.0 == "read_dir");
             if !init_failed {
                 initialised = true;
             }
             // buffered mode: a failing write may hit the flush of earlier records' bytes, and
             // the record's own bytes may fail later — both sides are tolerated there
+            // (a failing listing stops the start only where the start needs the list; the cleanup
+            // that runs at the start shrugs it off, and whether the record is still there at the
+            // end also depends on the cleanup limit: no report is demanded for it)
+            let only_listing = init_failed
+                && !write_failed
+                && !faults.iter().any(|f| f.0 == "open" || f.0 == "rename_current");
             if write_failed || init_failed {
                 may_miss.push(*id);
-                if *errs == 0 {
+                if *errs == 0 && !only_listing {
                     res.violate(
                         "failure-not-reported",
                         format!("C19/failure-not-reported/{facts}/lost-record"),
